@@ -183,6 +183,8 @@ def run_impl(case):
     import pandas as pd
     from outrank import core_ranking as cr
     logging.getLogger('syn-logger').setLevel(logging.CRITICAL)
+    if case.get('prelude'):                   # history: the same process first evaluated this configuration
+        run_impl(case['prelude'])
     obs = {'error': None, 'batches': []}
     names = case['names']
     try:
@@ -477,6 +479,8 @@ def evaluate(ctx: Ctx, cases, oracle_only=False):
         m3 = '3mr' in c['heuristic']
         ctx.count('kind:' + c['kind'])
         ctx.count('heuristic:' + c['heuristic'])
+        if c.get('switch_of'):
+            ctx.count('family-switch-after-same-columns')
         ctx.count('scope:' + ('target-only' if c['target_only'] else 'pairwise'))
         ctx.count('columns:' + ('1' if n == 1 else '2-4' if n <= 4 else '5-10' if n <= 10 else '11-40' if n <= 40 else '>40'))
         pos = c['names'].index(c['label']) if c['label'] in c['names'] else -1
@@ -528,9 +532,22 @@ def corpus():
     ]
 
 
+def with_family_switches(rng, cases, share=0.2):
+    """history in ONE process: the same columns / label / scope evaluated again right away under the other heuristic family
+    (3mr <-> non-3mr), so that anything remembered from the previous call on those columns would show"""
+    out = []
+    for c in cases:
+        out.append(c)
+        if c.get('kind') in ('graph', 'combos') and rng.random() < share:
+            other = rng.choice(['MI-numba-randomized', 'Constant']) if '3mr' in c['heuristic'] else 'MI-numba-3mr'
+            out.append({**c, 'heuristic': other, 'dseed': rng.randrange(2 ** 31), 'switch_of': c['heuristic'],
+                        'prelude': {k: v for k, v in c.items() if k != 'prelude'}})
+    return out
+
+
 def run(ctx: Ctx):
     n = 4000 if ctx.thorough() else 400
-    cases = corpus() + [gen_case(ctx.rng, ctx.thorough()) for _ in range(n)]
+    cases = corpus() + with_family_switches(ctx.rng, [gen_case(ctx.rng, ctx.thorough()) for _ in range(n)])
     cases += [gen_clamp(ctx.rng) for _ in range(4 if ctx.thorough() else 1)]
     evaluate(ctx, cases)
 
@@ -539,5 +556,5 @@ def search(ctx: Ctx):
     """extended failing-input search (oracle only, wider budget)"""
     sub = Ctx(ctx.prop, ctx.tier)
     sub.rng.seed(f'search:{ctx.seed}')
-    evaluate(sub, [gen_case(sub.rng, True, kind='graph') for _ in range(1500)], oracle_only=True)
+    evaluate(sub, with_family_switches(sub.rng, [gen_case(sub.rng, True, kind='graph') for _ in range(1500)]), oracle_only=True)
     return sub.oracle_failures
